@@ -111,8 +111,8 @@ fn exercise(schema_src: &str, doc_src: &str, obs: &mut Obs) {
 // adversarial families: valid GraphQL whose only possible complaint is a limit
 // ---------------------------------------------------------------------------------------------
 
-pub const FAMILIES: [&str; 13] = [
-    "frag-deep", "frag-flat", "frag-nested", "frag-inline", "sel-depth", "inline-depth", "directive-chain", "input-chain",
+pub const FAMILIES: [&str; 14] = [
+    "frag-deep", "frag-deep-inline", "frag-flat", "frag-nested", "frag-inline", "sel-depth", "inline-depth", "directive-chain", "input-chain",
     "list-type", "object-value", "list-value", "merge-depth", "var-deep",
 ];
 
@@ -131,7 +131,14 @@ pub fn family(name: &str, n: usize) -> (String, String) {
             // the product of two individually bounded depths
             s.push_str("type Query { a: Int q: Query }");
             d.push_str("{ ...F1 }");
-            for i in 1..99 { write!(d, "\nfragment F{i} on Query {}...F{}{}", "{ q ".repeat(n), i + 1, " }".repeat(n)).unwrap(); }
+            for i in 1..99 { write!(d, "\nfragment F{i} on Query {{ {}...F{} {}}}", "q { ".repeat(n), i + 1, "} ".repeat(n)).unwrap(); }
+            write!(d, "\nfragment F99 on Query {{ a }}").unwrap();
+        }
+        "frag-deep-inline" => {
+            // the same product, nesting through inline fragments with and without type condition
+            s.push_str("type Query { a: Int q: Query }");
+            d.push_str("{ ...F1 }");
+            for i in 1..99 { write!(d, "\nfragment F{i} on Query {{ {}...F{} {}}}", "... on Query { ... { ".repeat(n), i + 1, "} } ".repeat(n)).unwrap(); }
             write!(d, "\nfragment F99 on Query {{ a }}").unwrap();
         }
         "frag-nested" => {
@@ -373,6 +380,15 @@ pub fn child_main(spec: &str) {
                 run_instance(&format!("soup:{idx}"), s, d);
             }
         }
+        "show" => {
+            // developer aid: print every diagnostic of a family instance
+            let (s, d) = family(parts[1], parts[2].parse().unwrap());
+            let schema = Schema::parse_and_validate(&s, "schema.graphql").unwrap();
+            match ExecutableDocument::parse_and_validate(&schema, &d, "doc.graphql") {
+                Ok(_) => println!("valid"),
+                Err(e) => for diag in e.errors.iter() { println!("{}", diag.error); }
+            }
+        }
         "dump" => {
             let (s, d) = soup_instance(parts[1].parse().unwrap(), parts[2].parse().unwrap());
             std::fs::write("/tmp/soup-schema.graphql", s).unwrap();
@@ -512,7 +528,8 @@ fn gen_sels(rng: &mut Rng, k: usize, depth: usize) -> Vec<S> {
     let n = if depth == 0 { 1 + rng.below(3) } else { rng.below(3) };
     (0..n).map(|_| if depth < 3 && rng.chance(1, 3) { S::Nested(gen_sels(rng, k, depth + 1), rng.below(3) as u8) } else { S::Spread(rng.below(k + 1)) }).collect()
 }
-fn sels_model(v: &[S], o: &mut String) { for s in v { match s { S::Spread(n) => { write!(o, "{n}.").unwrap() } S::Nested(i, _) => { o.push('('); sels_model(i, o); o.push(')') } } } }
+// every selection set starts with the leaf field `x` (see `sels_text`): a nested, empty selection set
+fn sels_model(v: &[S], o: &mut String) { o.push_str("()"); for s in v { match s { S::Spread(n) => { write!(o, "{n}.").unwrap() } S::Nested(i, _) => { o.push('('); sels_model(i, o); o.push(')') } } } }
 fn sels_text(v: &[S], o: &mut String) {
     o.push_str("{ x ");
     for s in v { match s {
@@ -548,7 +565,7 @@ fn fragcycle_case(ctx: &mut Ctx, frags: &[Vec<S>]) {
             }
         }
     }
-    ctx.case("fragcycle", &["100".to_string(), model.clone()], &out.iter().collect::<String>());
+    ctx.case("fragcycle", &["100".to_string(), "500".to_string(), model.clone()], &out.iter().collect::<String>());
     if out.contains(&'r') { ctx.stat("fragcycle_with_cycle"); }
     if out.contains(&'l') { ctx.stat("fragcycle_with_limit"); }
     // oracle independent of the model: a fragment is reported recursive iff it can reach itself
@@ -558,6 +575,15 @@ fn fragcycle_case(ctx: &mut Ctx, frags: &[Vec<S>]) {
     for i in 0..k {
         let mut seen = vec![false; k]; let mut stack = adj[i].clone(); let mut cyc = false;
         while let Some(x) = stack.pop() { if x == i { cyc = true; break } if !seen[x] { seen[x] = true; stack.extend(adj[x].iter().copied()); } }
+        // a limit diagnostic replaces the verdict ("ran into the limit before a cycle could be
+        // detected"), but only an input that really is deep may get one: the call depth is at most
+        // the sum over fragments of (nesting depth + 1), the name stack at most the fragment count
+        if out[i] == 'l' {
+            fn nest(v: &[S]) -> usize { v.iter().map(|s| match s { S::Spread(_) => 0, S::Nested(i, _) => 1 + nest(i) }).max().unwrap_or(0) }
+            let bound: usize = frags.iter().map(|b| nest(b) + 2).sum();
+            if k <= 100 && bound <= 500 { ctx.fail("limit-reported-on-shallow-input", &text, &format!("fragment F{i}: 'too much nesting' although the call depth is at most {bound} and there are {k} fragments")); }
+            continue;
+        }
         if k <= 50 && (out[i] == 'r') != cyc { ctx.fail("fragment-cycle-misreported", &text, &format!("fragment F{i}: reported {:?}, reaches itself: {cyc}", out[i])); }
     }
 }
@@ -586,10 +612,33 @@ fn fragcycle_stream(ctx: &mut Ctx) {
     }
 }
 
+/// chains of `len` fragments, each nesting its spread `k` levels deep in fields / inline fragments:
+/// the call depth of the cycle detector is the product, around its limit of 500
+fn fragcycle_depth_stream(ctx: &mut Ctx) {
+    let lens: Vec<usize> = if ctx.thorough { vec![3, 4, 5, 6, 8, 11, 17, 26, 34, 51, 73, 99] } else { vec![3, 6, 11, 26, 51, 99] };
+    for len in lens {
+        let per = 500 / len;
+        let ks: Vec<usize> = if ctx.thorough { (per.saturating_sub(3)..=per + 2).collect() } else { vec![per.saturating_sub(2), per - 1, per, per + 1] };
+        for k in ks {
+            for close in [None, Some(0usize)] {
+                let frags: Vec<Vec<S>> = (0..len).map(|i| {
+                    let next = if i + 1 < len { Some(i + 1) } else { close };
+                    let mut body: Vec<S> = next.into_iter().map(S::Spread).collect();
+                    for level in 0..k { body = vec![S::Nested(body, ((i + level) % 3) as u8)]; }
+                    body
+                }).collect();
+                ctx.stat("fragcycle_depth_chains");
+                fragcycle_case(ctx, &frags);
+            }
+        }
+    }
+}
+
 pub fn run(ctx: &mut Ctx) {
     guard_stream(ctx);
     sort_stream(ctx);
     fragcycle_stream(ctx);
+    fragcycle_depth_stream(ctx);
     // adversarial families, one child process per instance
     let mut specs = vec![];
     for f in FAMILIES { for n in sizes(ctx.thorough) { specs.push(format!("family:{f}:{n}")); } }
